@@ -49,7 +49,11 @@ def name_test(draw, axis):
     if k == 7:
         return [draw(st.sampled_from(['p', 'q'])) + ':*']
     if k == 8:
+        if axis == 'attribute' and flag('no_attr_node_test'):
+            return ['*']
         return [draw(st.sampled_from(['node', 'text', 'comment', 'processing-instruction'])), '(', ')']
+    if axis == 'attribute' and flag('no_attr_node_test'):
+        return ['*']
     return draw(st.sampled_from([['node', '(', ')'], ['text', '(', ')'], ['processing-instruction', '(', "'pi'", ')'], ['*'], ['div'], ['mod'], ['and'], ['or']]))
 
 
@@ -318,7 +322,7 @@ def boolean(draw, d):
     if k == 12:
         fn = draw(st.sampled_from(['starts-with', 'contains']))
         return [fn, '('] + draw(string(d - 1)) + [','] + draw(string(d - 1)) + [')']
-    return ['lang', '(', draw(st.sampled_from(["'en'", "'EN'", "'en-US'", "'fr'", "''"])), ')']
+    return ['lang', '(', draw(st.sampled_from(["'en'", "'EN'", "'en-US'", "'fr'", "'e'"])), ')']
 
 
 NAMEISH = set('abcdefghijklmnopqrstuvwxyzABCDEFGHIJKLMNOPQRSTUVWXYZ0123456789_-.:*$')
